@@ -32,7 +32,7 @@ inductive GPc
 deriving Repr, DecidableEq, Inhabited
 
 inductive APc
-  | start | queued | size | push | avail | addPermits
+  | start | queued | size | push | avail | addPermits | cleanup | clear
 deriving Repr, DecidableEq, Inhabited
 
 inductive RPc | push | avail | addPermits | cleanup | clear
@@ -171,15 +171,19 @@ def stepGet (s : State) (i : Nat) (w : Tmo) (try_ remove : Bool) (pc : GPc) (oc 
       | (sem, .pending) =>
         some ({ s with sem := sem, available := s.available - 1 }.setOp i (.get w try_ remove .queued))
       | (sem, .closed) => some (failGet { s with sem := sem } i (.closed none))
+  -- (only `timeout_get` can be suspended: `try_get` is not a future)
   | .queued, .run =>
+    if try_ then none else
     match s.sem.pollAcquire i with
     | (sem, .ok) => some ({ s with sem := sem }.setOp i (.get w try_ remove .pop))
     | (sem, .pending) => some ({ s with sem := sem }.setOp i (.get w try_ remove .queued))
     | (sem, .closed) =>
       some (failGet { s with sem := sem, available := s.available + 1 } i (.closed none))
   | .queued, .cancel =>
+    if try_ then none else
     some (failGet { s with sem := s.sem.dropAcquire i, available := s.available + 1 } i .cancelled)
   | .queued, .deadline =>
+    if try_ then none else
     if w == .finite && s.cfg.rt then
       match s.sem.pollAcquire i with
       | (sem, .ok) => some ({ s with sem := sem }.setOp i (.get w try_ remove .pop))
@@ -235,7 +239,12 @@ def stepAdd (s : State) (i : Nat) (id : Nat) (try_ : Bool) (pc : APc) (oc : Outc
   | .push, .run => some ({ s with queue := s.queue ++ [id] }.setOp i (.add id try_ .avail))
   | .avail, .run => some ({ s with available := s.available + 1 }.setOp i (.add id try_ .addPermits))
   | .addPermits, .run =>
-    some (({ s with sem := s.sem.addPermits 1 }.setOp i .done).emit [.result i .added])
+    some ({ s with sem := s.sem.addPermits 1 }.setOp i (.add id try_ .cleanup))
+  -- `clean_up()`: a pool that was closed meanwhile does not keep the object
+  | .cleanup, .run =>
+    if s.sem.closed then some (s.setOp i (.add id try_ .clear))
+    else some ((s.setOp i .done).emit [.result i .added])
+  | .clear, .run => some (((clear s i).setOp i .done).emit [.result i .added])
   | _, _ => none
 
 def stepRet (s : State) (i : Nat) (id : Nat) (pc : RPc) : Option State :=
@@ -331,6 +340,8 @@ def Op.label : Op → String
   | .add _ _ .push => "uadd.push"
   | .add _ _ .avail => "uadd.available"
   | .add _ _ .addPermits => "uadd.add_permits"
+  | .add _ _ .cleanup => "uadd.cleanup"
+  | .add _ _ .clear => "ucleanup.clear"
   | .ret _ .push => "uret.push"
   | .ret _ .avail => "uret.available"
   | .ret _ .addPermits => "uret.add_permits"
